@@ -29,6 +29,7 @@ import json
 import os
 import signal
 import subprocess
+import threading
 import time
 from pathlib import Path
 
@@ -410,8 +411,11 @@ def oracle(sc, r):
         else:
             if not e.get("results_correct"):
                 bad.append(("wrong-or-partial-results:" + last_family(i), f"call {i}: n_results={e.get('n_results')}"))
-        if e["elapsed"] > LAT_BOUND:
-            bad.append(("slow:" + last_family(i), f"call {i} took {e['elapsed']} s"))
+        # "bounded time" is relative to the fault-free latency of the same call: a call moving a large result gets
+        # 0.1 s per MB on top (600 MB: 11 s fault-free here, up to 20 s under load)
+        bound = LAT_BOUND + 0.1 * sum(f.get("payload_mb", 0) for f in (sc["calls"][i].get("faults") or {}).values())
+        if e["elapsed"] > bound:
+            bad.append(("slow:" + last_family(i), f"call {i} took {e['elapsed']} s (bound {bound} s)"))
         n_groups = sum(1 for g in groups[: i + 1] if g)
         if failures > n_groups:
             bad.append(("call-fails-without-fault:" + last_family(i), f"{failures} failed calls after {n_groups} faults (call {i})"))
@@ -453,10 +457,28 @@ def _explore(ctx, scs, res, label):
     main_pids = []
     results = {}
     t0 = time.time()
+    flood = threading.Event()  # enough unexpected hangs seen: the verdict is settled, do not wait 45 s for each of the rest
+    n_unexpected_hangs = 0
+
+    def guarded(sc):
+        if flood.is_set():
+            return None
+        return run_scenario(sc, ctx.scratch / label, sc.get("timeout", default_to))
+
     with cf.ThreadPoolExecutor(max_workers=par) as ex:
-        futs = {ex.submit(run_scenario, sc, ctx.scratch / label, sc.get("timeout", default_to)): sc for sc in scs}
+        futs = {ex.submit(guarded, sc): sc for sc in scs}
         for f in cf.as_completed(futs):
-            results[futs[f]["id"]] = f.result()
+            r = f.result()
+            if r is None:
+                continue
+            results[futs[f]["id"]] = r
+            if r["hang"] and not futs[f]["family"].startswith(("task:mid-send", "task:timer")):
+                n_unexpected_hangs += 1
+                if n_unexpected_hangs >= 5:
+                    flood.set()
+    if flood.is_set():
+        res.notes.append(f"{len(scs) - len(results)} scenarios skipped after {n_unexpected_hangs} unexpected hangs")
+    scs = [sc for sc in scs if sc["id"] in results]
     res.extra.setdefault("phase_wall_s", {})[label] = round(time.time() - t0, 1)
     requests, owners = [], []
     for sc in scs:
@@ -506,6 +528,10 @@ def _explore(ctx, scs, res, label):
         res.count("model-set-size=" + ("1" if len(pred) == 1 else "2-4" if len(pred) <= 4 else "5+"))
         if tr not in pred:
             res.diverge("outcome-trace", case, " ".join(tr), sorted(" ".join(t) for t in pred))
+            ds = res.extra.setdefault("divergence_samples", [])
+            if len(ds) < 5:
+                ds.append(dict(case=case, impl=" ".join(tr), model=sorted(" ".join(t) for t in pred)[:8],
+                               events=[e for e in r["events"] if e.get("ev") != "start"]))
     _sweep_shm(main_pids)
     return res
 
